@@ -95,4 +95,82 @@ theorem cmpkey_eq_iff (v w : Ver) :
     subst h1 h3 h4 h5 h6
     simp [h2]
 
+/-! ### `public` through the code's `str(self).split("+", 1)[0]` -/
+
+theorem splitOn_head (p rest : Str) (h : ∀ c ∈ p, c ≠ 43) :
+    (splitOn 43 (p ++ 43 :: rest)).head? = some p ∧ (splitOn 43 p).head? = some p := by
+  induction p with
+  | nil => simp [splitOn]
+  | cons c cs ih =>
+    have hc : c ≠ 43 := h c (by simp)
+    have := ih (fun x hx => h x (by simp [hx]))
+    constructor
+    · simp only [List.cons_append, splitOn, beq_iff_eq, hc, if_false]
+      cases hs : splitOn 43 (cs ++ 43 :: rest) with
+      | nil => rw [hs] at this; simp at this
+      | cons q qs => rw [hs] at this; simp at this; simp [this.1]
+    · simp only [splitOn, beq_iff_eq, hc, if_false]
+      cases hs : splitOn 43 cs with
+      | nil => rw [hs] at this; simp at this
+      | cons q qs => rw [hs] at this; simp at this; simp [this.2]
+
+theorem no_plus_dec (n : Nat) : ∀ c ∈ dec n, c ≠ 43 := by
+  intro c hc h; subst h; have := dec_digits n 43 hc; simp [isDigit] at this
+
+theorem no_plus_tailS (ns : List Nat) : ∀ c ∈ tailS (ns.map dec), c ≠ 43 := by
+  induction ns with
+  | nil => simp [tailS]
+  | cons n ns ih =>
+    intro c hc
+    simp [tailS] at hc
+    rcases hc with rfl | hc | hc
+    · decide
+    · exact no_plus_dec n c hc
+    · exact ih c hc
+
+theorem no_plus_public (v : Ver) (h : WF v) : ∀ c ∈ v.public, c ≠ 43 := by
+  obtain ⟨e, r, pre, post, dev, loc⟩ := v
+  simp only [WF, Ver.wf, Bool.and_eq_true] at h
+  cases r with
+  | nil => simp at h
+  | cons r0 ns =>
+    rw [public_eq, base_eq]
+    intro c hc
+    simp only [List.mem_append] at hc
+    rcases hc with (hc | hc | hc) | hc | hc | hc
+    · simp only [epochS] at hc
+      split at hc
+      · simp at hc; rcases hc with hc | rfl
+        · exact no_plus_dec e c hc
+        · decide
+      · simp at hc
+    · exact no_plus_dec r0 c hc
+    · exact no_plus_tailS ns c hc
+    · cases pre with
+      | none => simp [preS] at hc
+      | some p =>
+        obtain ⟨l, n⟩ := p
+        simp only [preS, List.mem_append] at hc
+        rcases hc with hc | hc
+        · cases l <;> simp [PreL.str, ofString] at hc <;> omega
+        · exact no_plus_dec n c hc
+    · cases post with
+      | none => simp [postS] at hc
+      | some n =>
+        simp [postS] at hc
+        rcases hc with rfl | rfl | rfl | rfl | rfl | hc <;> first | decide | exact no_plus_dec n c hc
+    · cases dev with
+      | none => simp [devS] at hc
+      | some n =>
+        simp [devS] at hc
+        rcases hc with rfl | rfl | rfl | rfl | hc <;> first | decide | exact no_plus_dec n c hc
+
+/-- `Version.public` as the code computes it — `str(self).split("+", 1)[0]` — is the model's `public` -/
+theorem public_is_split (v : Ver) (h : WF v) : (splitOn 43 v.str).head? = some v.public := by
+  have hp := no_plus_public v h
+  simp only [Ver.str]
+  cases v.localStr with
+  | none => simpa using (splitOn_head v.public [] hp).2
+  | some l => exact (splitOn_head v.public l hp).1
+
 end V
